@@ -197,20 +197,24 @@ func checkC01(c *Ctx) {
 		}
 		c.Check(ok, "C01-R3", "resize:t."+fld+"-change-invalidates", p.pos(resize.Pos()), "every store of the new size is tied to cells.Invalidate() and to cx=cy=-1")
 	}
-	for _, fn := range []*ssa.Function{sync, mainLoop} {
-		draws := callsIn(fn, func(n string, _ *ssa.CallCommon) bool { return strings.HasSuffix(n, "tScreen).draw") })
-		if len(draws) == 0 {
-			c.Undecided("C01-R3", fn.Name()+":draw", p.pos(fn.Pos()), "no draw call")
-			continue
-		}
-		for _, d := range draws {
-			ok := false
-			for _, i := range invalidations(fn) {
-				if instrDominates(i, d) {
-					ok = true
+	for _, root := range []*ssa.Function{sync, mainLoop} {
+		// the repaint may sit in the function itself or in a helper it calls (handleResize, …): the
+		// rule is applied wherever the draw() call is
+		nd := 0
+		for _, fn := range hostsOfCall(p, root, "tScreen).draw", 2, map[*ssa.Function]bool{draw: true, resize: true, sync: root != sync}) {
+			for _, d := range callsIn(fn, func(n string, _ *ssa.CallCommon) bool { return strings.HasSuffix(n, "tScreen).draw") }) {
+				nd++
+				ok := false
+				for _, i := range invalidations(fn) {
+					if instrDominates(i, d) {
+						ok = true
+					}
 				}
+				c.Check(ok, "C01-R3", root.Name()+":invalidate-before-draw", p.pos(d.Pos()), "cells.Invalidate() dominates draw()")
 			}
-			c.Check(ok, "C01-R3", fn.Name()+":invalidate-before-draw", p.pos(d.Pos()), "cells.Invalidate() dominates draw()")
+		}
+		if nd == 0 {
+			c.Undecided("C01-R3", root.Name()+":draw", p.pos(root.Pos()), "no draw call")
 		}
 	}
 	okClear := false
@@ -533,4 +537,39 @@ func c01Colours(c *Ctx, p *Prog, fn *ssa.Function) {
 			c.Check(tc && order, "C01-R7", key, p.pos(call.Pos()), fmt.Sprintf("under t.truecolor: %v; components in r,g,b order from RGB(): %v", tc, order))
 		}
 	}
+}
+
+// hostsOfCall: root and the module functions it reaches through at most depth static calls (goroutines
+// not followed, functions in skip not entered) that contain a call whose callee name ends in suffix.
+func hostsOfCall(p *Prog, root *ssa.Function, suffix string, depth int, skip map[*ssa.Function]bool) []*ssa.Function {
+	var out []*ssa.Function
+	seen := map[*ssa.Function]bool{}
+	var visit func(fn *ssa.Function, d int)
+	visit = func(fn *ssa.Function, d int) {
+		if fn == nil || seen[fn] || fn.Pkg != p.Tcell || len(fn.Blocks) == 0 {
+			return
+		}
+		seen[fn] = true
+		if len(callsIn(fn, func(n string, _ *ssa.CallCommon) bool { return strings.HasSuffix(n, suffix) })) > 0 {
+			out = append(out, fn)
+		}
+		if d == 0 {
+			return
+		}
+		eachInstr(fn, func(in ssa.Instruction) {
+			if _, isGo := in.(*ssa.Go); isGo {
+				return
+			}
+			if cc := callCommon(in); cc != nil {
+				if callee := cc.StaticCallee(); callee != nil && !skip[callee] {
+					visit(callee, d-1)
+				}
+			}
+		})
+		for _, a := range fn.AnonFuncs {
+			visit(a, d)
+		}
+	}
+	visit(root, depth)
+	return out
 }
